@@ -169,6 +169,9 @@ func (r *Report) Finish(verifDir string, seed int) int {
 		return r.Obs[i].Key < r.Obs[j].Key
 	})
 	for _, o := range r.Obs {
+		if os.Getenv("NFSVERIF_LIST") != "" {
+			fmt.Printf("OB %v %s | %s | %s | %s\n", o.OK, o.Rule, o.Key, o.Pos, o.Why)
+		}
 		if o.OK {
 			ndis++
 			continue
